@@ -162,3 +162,10 @@ package util
 //@   modifies lasthashed
 //@   ghostset lasthashed := content
 //@   ensures result == md5hex(key(content)) && len(result) == 32
+
+// ==== label values (C07, C19): whatever bytes the fields hold, the result is valid UTF-8 (and stays a private copy) ================
+//@ func ValidUTF8Strings(strList []string) []string
+//@   property C07 C19 C06
+//@   modifies nothing
+//@   ensures[valid-utf8-copies] len(result) == len(strList) && isfresh(result) && forall i int :: 0 <= i && i < len(strList) ==> validUTF8(result[i]) && (!shared(strList[i]) ==> !shared(result[i]))
+//@   loop 1: invariant -1 <= rangeindex && rangeindex < len(strList) && len(destList) == len(strList) && isfresh(destList) && forall i int :: 0 <= i && i <= rangeindex ==> validUTF8(destList[i]) && (!shared(strList[i]) ==> !shared(destList[i]))
